@@ -22,7 +22,8 @@ import Golib.Conf.SpacedLines
 import Golib.Conf.ObsHist
 import Golib.Conf.FSDurLemmas
 import Golib.Conf.FSFault
-import Golib.Conf.KeyIff
+import Golib.Conf.SysHist
+import Golib.Conf.KeyBackslash
 import Golib.Conf.LiftLines
 
 namespace C18
@@ -75,6 +76,45 @@ theorem hashset_spec (hash : Str → Int) (m env : KV) (k d deli : Str) :
 example : hashTokens [("k".toList, "a, b ,,c".toList)] [] "k".toList [] ",".toList
     = ["a".toList, "b".toList, "c".toList] := by decide
 example : hashTokens [] [] "k".toList [] ",".toList = [[]] := by decide      -- Tokenizer("") = [""]
+
+/-- **Typed getters, one equation**: a getter answers the parse of the visible value, else the
+    default — for every parser that rejects the empty string (ParseInt, ParseBool and
+    strconv.ParseFloat all do; for ParseFloat this is the stated assumption on the parameter) -/
+theorem getter_eq_parse_or_default {α : Type} (parse : Str → Option α) (hempty : parse [] = none)
+    (m env : KV) (k : Str) (d : α) :
+    getParsed parse m env k d = (parse (getValue m env k)).getD d := by
+  unfold getParsed
+  cases hv : getValue m env k with
+  | nil => simp [hempty]
+  | cons c r => simp
+
+theorem getInt_eq (m env : KV) (k : Str) (d : Int) :
+    getInt m env k d = (parseInt 32 (getValue m env k)).getD (wrap32 d) :=
+  getter_eq_parse_or_default (parseInt 32) (by decide) m env k (wrap32 d)
+
+theorem getLong_eq (m env : KV) (k : Str) (d : Int) :
+    getLong m env k d = (parseInt 64 (getValue m env k)).getD d :=
+  getter_eq_parse_or_default (parseInt 64) (by decide) m env k d
+
+theorem getBoolean_eq (m env : KV) (k : Str) (d : Bool) :
+    getBoolean m env k d = (parseBool (getValue m env k)).getD d :=
+  getter_eq_parse_or_default parseBool (by decide) m env k d
+
+theorem getFloat_eq {F : Type} (pf : Str → Option F) (hempty : pf [] = none) (m env : KV) (k : Str) (d : F) :
+    getFloat pf m env k d = (pf (getValue m env k)).getD d :=
+  getter_eq_parse_or_default pf hempty m env k d
+
+/-- … and the visible value is the file's value, trimmed, after any load (`apply_merge`), so the
+    getters read the file: e.g. for GetInt after a reload that loaded `props` -/
+theorem getInt_after_load (c : Cfg) (f : FileSt) (props : KV) (k v : Str) (d : Int) (env : KV)
+    (hne : c.last ≠ verFull f) (hp : parseProps f.text = .ok props) (hkv : (k, v) ∈ readMap props) :
+    getInt (reload verFull c (some f)).1.m env k d = (parseInt 32 (trimSpace v)).getD (wrap32 d) := by
+  have hn := keysNodup_readMap props (parseProps_ok_nodup f.text props hp)
+  obtain ⟨_, _, _, h4⟩ := reload_loaded verFull c f props hne hp
+  have hl : lookup (reload verFull c (some f)).1.m k = some v := by
+    rw [h4]; exact lookup_applyMerge_mem c.m _ k v hn hkv (readMap_nonempty props k v hkv)
+  rw [getInt_eq]
+  simp [getValue, hl]
 
 /-- a key present in the map shadows the environment and is trimmed; an absent key falls back
     to the environment -/
@@ -180,6 +220,34 @@ theorem reentrant_registration (o : Obs) (n : Str) (i : Nat) (v : Bool) (ops : L
 example :
     (Obs.empty.exec [.add ['p'] 1, .runReg ['c'] 2 false, .run, .add ['c'] 3, .run]).counts
       = [(1, 3), (2, 1), (3, 1)] := by decide
+
+/-- **Notification clause over histories**: for every history of edits, deletions, reloads and
+    registrations (either reset policy), each observer target has been called exactly once for
+    every reload that loaded a new version of the file (resp. reset the map, with fix-D46) while
+    the target was registered, and never otherwise: a reload that finds the same stamp, no file or
+    a malformed file calls nobody and leaves the map alone (`reload_leaves_alone`) -/
+theorem notifications_history (nr : Bool) (ops : List SysOp) (id : Nat) :
+    ((Sys.init.run nr ops).obs).count id = callsSpec [] (project nr Sys.init ops) id :=
+  notifications_over_history nr ops id
+
+theorem reload_leaves_alone (c : Cfg) (file : Option FileSt)
+    (h1 : (reload verFull c file).2 ≠ .loaded) (h2 : (reload verFull c file).2 ≠ .reset) :
+    (reload verFull c file).1.m = c.m ∧ (reload verFull c file).1.notified = c.notified :=
+  reload_frame verFull c file h1 h2
+
+example :
+    let f1 : FileSt := ⟨1700000000000000000, ['k', '=', '2', '\n']⟩
+    let f2 : FileSt := ⟨1700000001000000000, ['k', '=', '3', '\n']⟩
+    (Sys.init.run false [.addObs ['a'] 1, .edit f1, .reload, .reload, .addObs ['b'] 2, .edit f2, .reload,
+       .delete, .reload, .reload]).obs.counts = [(1, 2), (2, 1)] := by decide
+
+/-- known finding `reload:reset-not-notified`: when the file disappears the map changes (back to
+    the defaults) but the code does not run the observers; with proposed fix-D46 it does -/
+theorem finding_reset_not_notified :
+    let f1 : FileSt := ⟨1700000000000000000, ['k', '=', '2', '\n']⟩
+    let ops : List SysOp := [.addObs ['a'] 1, .edit f1, .reload, .delete, .reload]
+    lookup (Sys.init.run false ops).cfg.m ['k'] = none ∧ lookup (Sys.init.run false [.addObs ['a'] 1, .edit f1, .reload]).cfg.m ['k'] = some ['2'] ∧
+    (Sys.init.run false ops).obs.counts = [(1, 1)] ∧ (Sys.init.run true ops).obs.counts = [(1, 2)] := by decide
 
 /-- for all histories of external edits, deletions and reloads: once the file stops changing
     (state `f`), one more reload makes every key=value of it visible.
@@ -393,6 +461,24 @@ theorem wfval_iff (v : Str) : WFval v ↔ ValuePreserved v ∧ isBlankVal v = fa
 theorem key_preserved_iff (k v : Str) (hw : isWordStart k = true) (hbs : ∀ c ∈ k, c ≠ '\\') (hv : WFval v) :
     lexPairs (renderKV k v ++ ['\n']) = some [(k, v)] ↔ ∀ c ∈ k, plainKeyChar c = true :=
   Conf.key_preserved_iff k v hw hbs hv
+
+/-- keys with a backslash (written unescaped, so the lexer sees an escape): if the first
+    character that is not plain is a backslash and the character after it — the next character of
+    the key, or the line's '=' when the backslash ends the key — is neither another backslash nor
+    'u', the key is not preserved.  Together with `key_preserved_iff` (no backslash) and the
+    `^\w` filter this leaves exactly two shapes without a general proof: a backslash followed by a
+    backslash, and a backslash followed by 'u' (witnesses below). -/
+theorem key_with_backslash_not_preserved (a b v : Str) (c : Char) (ha : WFkey a)
+    (hc1 : c ≠ '\\') (hc2 : c ≠ 'u')
+    (hnext : (b ++ '=' :: escValue v ++ ['\n']).head? = some c) :
+    lexPairs (renderKV (a ++ '\\' :: b) v ++ ['\n']) ≠ some [(a ++ '\\' :: b, v)] :=
+  key_backslash_not_preserved a b v c ha hc1 hc2 hnext
+
+example : lexPairs (renderKV ['a', '\\', 'b'] ['1'] ++ ['\n']) = some [(['a', 'b'], ['1'])] := by decide
+example : lexPairs (renderKV ['a', '\\'] ['1'] ++ ['\n']) = some [(['a', '=', '1'], [])] := by decide
+/-- the two remaining shapes, by example: `a\\b` comes back as `a\b`, `a\u0041` as `aA` -/
+example : lexPairs (renderKV ['a', '\\', '\\', 'b'] ['1'] ++ ['\n']) = some [(['a', '\\', 'b'], ['1'])] := by decide
+example : lexPairs (renderKV ['a', '\\', 'u', '0', '0', '4', '1'] ['1'] ++ ['\n']) = some [(['a', 'A'], ['1'])] := by decide
 
 theorem key_cut_at_separator (a rest : Str) (e : Char) (l : KV) (ha : WFkey a) (he : isEndOfKey e = true)
     (h : lexPairs (a ++ e :: rest) = some l) : ∃ v tl, l = (a, v) :: tl :=
